@@ -236,7 +236,8 @@ class Attribute:
 
         # count
         count = self.count
-        if count and count != 1:
+        if (count and count != 1) or (count == 0 and self._value is not None):
+            # a count different from the default (1) is written explicitly; this includes 0 for an empty list of values
             bts += write_struct_uvari(count)
             characteristics += '1'
         else:
@@ -289,7 +290,11 @@ class Attribute:
         rc = self.representation_code
         value = self._value
 
-        if value is not None:
+        if isinstance(value, (list, tuple)) and not self.flatten_list(value):
+            # an empty list of values: count is 0 and no value is present
+            characteristics += '0'
+
+        elif value is not None:
             if isinstance(value, (list, tuple)):
                 for val in self.flatten_list(value):
                     bts += write_struct(rc, val)
